@@ -833,13 +833,19 @@ def build_nifty(I, prog, upto=None, vdoms=None):
             r = O(nd[1]).vdot(O(nd[2]))
         elif op == "pack":
             r = None
-            for it in nd[1]:
-                t = O(it[1]).ducktape_left(it[0])
-                ng = len(it) > 2 and it[2]
-                if r is None:
-                    r = -t if ng else t
-                else:
-                    r = r - t if ng else r + t
+            ts = [O(it[1]).ducktape_left(it[0]) for it in nd[1]]
+            ngs = [bool(len(it) > 2 and it[2]) for it in nd[1]]
+            if len(ts) > 1 and ngs[0] and all(isinstance(t, I.LinearOperator) for t in ts):
+                # a signed sum whose *first* summand carries the minus flag (what `1 - A` turns into after
+                # the scaling operator is moved to the end by SumOperator.simplify)
+                from nifty.cl.operators.sum_operator import SumOperator
+                r = SumOperator.make(ts, ngs)
+            else:
+                for t, ng in zip(ts, ngs):
+                    if r is None:
+                        r = -t if ng else t
+                    else:
+                        r = r - t if ng else r + t
         elif op == "mdsub":
             r = O(nd[1]) - O(nd[2])
         elif op == "mdadd":
